@@ -321,7 +321,9 @@ void judge(const sim::Json& sc, const RunRecord& rec, sim::RunResult& r) {
   }
 }
 
-Property prop = {"C15", generate, enumerated, judge, nullptr};
+sim::Json baseline() { sim::Json sc = base(1, false); sc.set("gen", "baseline"); return sc; }   // generate() runs the driver for its census
+
+Property prop = {"C15", generate, enumerated, judge, nullptr, baseline};
 DRVSIM_REGISTER(prop);
 
 }  // namespace
